@@ -189,13 +189,13 @@ func runLookupTLC(r *Run, g *lookupGen, tag string) {
 	r.addCov("lookup_model_requests_per_table"+tag, int64(len(g.Paths)*max(1, len(g.Hosts))))
 }
 
-func runLookupModel(r *Run) {
+func runLookupModel(r *Run, negatives bool) {
 	rng := rand.New(rand.NewSource(r.Seed + 4242))
 	g := newLookupGen(r, rng, pick(r, 3, 6), 3, pick(r, 5, 6))
 	runLookupTLC(r, g, "")
 	gh := newLookupHostGen(r, rng, pick(r, 2, 4), 3, pick(r, 3, 4))
 	runLookupTLC(r, gh, "-host")
-	if !r.quick() {
+	if negatives && !r.quick() {
 		lookupNegativeRuns(r, g, gh)
 	}
 }
